@@ -2,6 +2,7 @@
 compiles and breaks exactly one frozen rule instance; `expect` is a substring of the report line."""
 
 CG = "crates/qbice/src/engine/computation_graph/"
+ST = "crates/storage/src/"
 
 MUTANTS = [
     # ------------------------------------------------------------------ C01
@@ -382,4 +383,173 @@ MUTANTS = [
          old="        Self::is_query_running_in_scc(caller)?;\n",
          new="        if value.status == QueryStatus::UpToDate { Self::is_query_running_in_scc(caller)?; }\n",
          expect="C06.b/is_query_running_in_scc/err-iff-flag"),
+    # ------------------------------------------------------------------ C09
+    dict(id="C09.a-always-updated", prop="C09", file=ST + "single_map/cache.rs",
+         old="        self.cache.insert(key, value, updated);",
+         new="        self.cache.insert(key, value, updated || true);",
+         expect="C09.a/write-sites/record-then-cache-with-updated"),
+    dict(id="C09.a-keyofset-remove-ignores-updated", prop="C09", file=ST + "key_of_set_map/cache.rs",
+         old="            Operation::Remove(element.clone()),\n            write_batch.epoch(),\n            updated,",
+         new="            Operation::Remove(element.clone()),\n            write_batch.epoch(),\n            { let _ = updated; false },",
+         expect="C09.a/write-sites/record-then-cache-with-updated"),
+    dict(id="C09.b-pin-regardless-of-updated", prop="C09", file=ST + "wide_column_cache.rs",
+         old="                    if updated {\n                        *entry.get_mut().pin_count.get_mut() += 1;\n                    }",
+         new="                    let _ = updated;\n                    *entry.get_mut().pin_count.get_mut() += 1;",
+         expect="C09.b/WideColumnCache::insert/pin-under-updated"),
+    dict(id="C09.b-remove-pinned-entry", prop="C09", file=ST + "wide_column_cache.rs",
+         old="                    if *occupied_entry.get_mut().pin_count.get_mut() == 0 {",
+         new="                    if *occupied_entry.get_mut().pin_count.get_mut() <= 1 {",
+         expect="C09.b/WideColumnCache::remove/negative-entry-and-pin"),
+    dict(id="C09.b-no-negative-entry", prop="C09", file=ST + "wide_column_cache.rs",
+         old="                if updated {\n                    vaccant_entry.insert(Entry {\n                        value: None,",
+         new="                if updated && false {\n                    vaccant_entry.insert(Entry {\n                        value: None,",
+         expect="C09.b/WideColumnCache::remove/negative-entry-and-pin"),
+    dict(id="C09.c-fill-overwrites-occupied", prop="C09", file=ST + "wide_column_cache.rs",
+         old="""                        tiny_lfu::Entry::Occupied(_) => {
+                            // Do nothing as there's an another thread inserted
+                            // an explicit value
+                        }""",
+         new="""                        tiny_lfu::Entry::Occupied(mut occ) => {
+                            if occ.get_mut().value.is_none() {
+                                let _ = occ.remove();
+                            }
+                        }""",
+         expect="C09.c/WideColumnCache::get/fill-only-when-vacant"),
+    dict(id="C09.d-notify-before-commit", prop="C09", file=ST + "write_manager/write_behind.rs",
+         old="""        // commit physical batch
+        to_commit_db_batch.commit();
+
+        // after commit actions
+        for mut logical_batch in to_commit_logical_batches {""",
+         new="""        // after commit actions
+        let mut to_commit_db_batch = Some(to_commit_db_batch);
+        for mut logical_batch in to_commit_logical_batches {
+            if let Some(b) = to_commit_db_batch.take() { if logical_batch.epoch.0 % 2 == 0 { b.commit(); } else { to_commit_db_batch = Some(b); } }""",
+         edits_extra=[("""                logical_batch.active = false;
+            }
+        }
+    }""", """                logical_batch.active = false;
+            }
+        }
+        if let Some(b) = to_commit_db_batch.take() { b.commit(); }
+    }""")],
+         expect="C09.d/flush/commit-before-unpin-notification"),
+    dict(id="C09.e-staged-op-wrong-epoch", prop="C09", file=ST + "key_of_set_map/cache.rs",
+         old="            Operation::Insert(element),\n            write_batch.epoch(),",
+         new="            Operation::Insert(element),\n            Epoch(0),",
+         expect="C09.e/key-of-set/epochs"),
+    # ------------------------------------------------------------------ C16
+    dict(id="C16.a-evict-without-pin-check", prop="C16", file=ST + "tiny_lfu.rs",
+         old="                        !self.lifecycle_listener.is_pinned(evicted_key, value)\n",
+         new="                        !self.lifecycle_listener.is_pinned(evicted_key, value) || self.unpin_strategy == UnpinStrategy::Poll\n",
+         expect="C16.a/remove_closure/removal-requires-unpinned"),
+    dict(id="C16.a-extra-remover", prop="C16", file=ST + "tiny_lfu.rs",
+         old="    pub fn unpin(&self, key: K) {\n",
+         new="    pub fn unpin(&self, key: K) {\n        if self.inner.storage.len() > usize::MAX / 2 { let _ = self.inner.storage.remove_sync(&key); }\n",
+         expect="C16.a/who-may-remove-from-storage"),
+    dict(id="C16.b-pop-without-confirmation", prop="C16", file=ST + "tiny_lfu/policy.rs",
+         old="""            if remove(candidate_key) {
+                // the main storage has confirmed removal of the candidate,
+                // we can evict it safely
+                self.lru.pop_least_recent(lru::Region::Window);
+            } else {""",
+         new="""            if remove(candidate_key) || candidate_freq == 0 {
+                // the main storage has confirmed removal of the candidate,
+                // we can evict it safely
+                self.lru.pop_least_recent(lru::Region::Window);
+            } else {""",
+         expect="C16.b/policy/forget-only-after-confirmation"),
+    dict(id="C16.c-remove-without-message", prop="C16", file=ST + "tiny_lfu.rs",
+         old="        self.write_buffer.push(WriteMessage::Removed(key));\n",
+         new="        if std::mem::size_of::<V>() > 0 { self.write_buffer.push(WriteMessage::Removed(key)); }\n",
+         expect="C16.c/storage-policy-message-pairing"),
+    dict(id="C16.d-unpin-at-two", prop="C16", file=ST + "wide_column_cache.rs",
+         old="                count == 1 // unpin",
+         new="                count <= 2 // unpin",
+         expect="C16.d/unpin-only-at-zero"),
+    dict(id="C16.d-pin-predicate-threshold", prop="C16", file=ST + "wide_column_cache.rs",
+         old="        value.pin_count.load(Ordering::SeqCst) > 0",
+         new="        value.pin_count.load(Ordering::SeqCst) > 1",
+         expect="C16.d/pin-predicates-read-owner-state"),
+    # ------------------------------------------------------------------ C10
+    dict(id="C10.a-apply-older-or-equal-epoch", prop="C10", file=ST + "write_manager/write_behind.rs",
+         old="            if top.write_buffer.epoch == current_batch.expected_epoch {",
+         new="            if top.write_buffer.epoch <= current_batch.expected_epoch || pending_commits.len() > 64 {",
+         expect="C10.a/process_pending_commits/apply-only-expected-epoch"),
+    dict(id="C10.a-heap-natural-order", prop="C10", file=ST + "write_manager/write_behind.rs",
+         old="        other.write_buffer.epoch.cmp(&self.write_buffer.epoch)",
+         new="        self.write_buffer.epoch.cmp(&other.write_buffer.epoch)",
+         expect="C10.a/WriteTask-order/reversed-epoch"),
+    dict(id="C10.b-inactive-before-commit", prop="C10", file=ST + "write_manager/write_behind.rs",
+         old="""        // commit physical batch
+        to_commit_db_batch.commit();
+
+        // after commit actions
+        for mut logical_batch in to_commit_logical_batches {
+            if shutting_down.load(Ordering::SeqCst).not() {""",
+         new="""        let mut to_commit_logical_batches = to_commit_logical_batches;
+        if shutting_down.load(Ordering::SeqCst) {
+            for b in &mut to_commit_logical_batches { b.active = false; }
+        }
+        // commit physical batch
+        to_commit_db_batch.commit();
+
+        // after commit actions
+        for mut logical_batch in to_commit_logical_batches {
+            if shutting_down.load(Ordering::SeqCst).not() {""",
+         expect="C10.b/inactive-only-after-commit"),
+    dict(id="C10.c-second-epoch-source", prop="C10", file=ST + "write_manager/write_behind.rs",
+         old="            || WriteBatch::new(Epoch(curr_epoch), true),",
+         new="            || WriteBatch::new(Epoch(self.epoch.load(Ordering::SeqCst)), true),",
+         expect="C10.c/single-epoch-source"),
+    dict(id="C10.e-commit-joined-before-serializers", prop="C10", file=ST + "write_manager/write_behind.rs",
+         old="""        for handle in self.serialize_handles.drain(..) {
+            let _ = handle.join();
+        }
+""",
+         new="""        for handle in self.serialize_handles.drain(..) {
+            if handle.is_finished() { let _ = handle.join(); } else { break; }
+        }
+""",
+         expect="C10.e/shutdown/ordered-joins"),
+    dict(id="C10.e-no-final-drain", prop="C10", file=ST + "write_manager/write_behind.rs",
+         old="""        // Process remaining commits
+        Self::process_pending_commits(
+            &mut holdback_queues,
+            &mut current_batch,
+            &after_commit_sender,
+            shutting_down,
+            db,
+        );
+""",
+         new="""        // Process remaining commits
+        if !shutting_down.load(Ordering::SeqCst) {
+        Self::process_pending_commits(
+            &mut holdback_queues,
+            &mut current_batch,
+            &after_commit_sender,
+            shutting_down,
+            db,
+        );
+        }
+""",
+         expect="C10.e/commit_worker/final-drain-and-flush"),
+    # ------------------------------------------------------------------ C07
+    dict(id="C07.a-clean_query-early-return", prop="C07", file=CG + "database.rs",
+         old="        for callee in clean_edges.iter().copied() {\n            let edge = Edge { from: *self.query_id(), to: callee };",
+         new="        if clean_edges.is_empty() && new_node_info.is_none() && timestamp.0 == 0 {\n            return;\n        }\n        for callee in clean_edges.iter().copied() {\n            let edge = Edge { from: *self.query_id(), to: callee };",
+         expect="C07.a/clean_query/one-batch-submitted-once"),
+    dict(id="C07.c-sync-not-taken", prop="C07", file=CG + "database.rs",
+         old="            let sync = ManuallyDrop::take(&mut self.sync);\n",
+         new="            let sync = ManuallyDrop::take(&mut self.dirty_edge_set);\n            let _ = &self.sync;\n",
+         edits_extra=[("            let dirty_edge_set = ManuallyDrop::take(&mut self.dirty_edge_set);\n", "            let dirty_edge_set = ();\n")],
+         expect="C07.c/Database-drop/takes-and-waits-all-fields"),
+    dict(id="C07.d-epoch-not-reloaded", prop="C07", file=CG + "database/sync.rs",
+         old="            timestamp: AtomicU64::new(timestamp.0),",
+         new="            timestamp: AtomicU64::new(timestamp.0 - timestamp.0),",
+         expect="C07.d/Sync::new/epoch-reloaded"),
+    dict(id="C07.d-store-previous-epoch", prop="C07", file=CG + "database/sync.rs",
+         old="            .insert((), Timestamp(new_timestamp), &mut write_buffer)",
+         new="            .insert((), Timestamp(prev), &mut write_buffer)",
+         expect="C07.d/session/epoch-stored-with-session"),
 ]
